@@ -5,6 +5,7 @@ package main
 
 import (
 	"fmt"
+	"os"
 	"go/token"
 	"go/types"
 	"sort"
@@ -417,8 +418,17 @@ func (s *Session) loopEnv(st *State, li *loopInfo) *Env {
 				}
 			}
 		case "$seen":
-			if len(li.iters) > 0 {
-				it := s.val(st, li.iters[0]).(*Iter)
+			its := li.iters
+			if len(its) == 0 {
+				// an inner loop: the iterator of the enclosing map-range loop
+				for _, ol := range s.loops {
+					if ol != li && ol.blocks[li.head] && len(ol.iters) > 0 {
+						its = ol.iters
+					}
+				}
+			}
+			if len(its) > 0 {
+				it := s.val(st, its[0]).(*Iter)
 				return EVal{T: st.seen[it.id], GKey: it.MT.Key(), GVal: types.Typ[types.Bool]}, true
 			}
 		}
@@ -627,7 +637,7 @@ func (P *Prog) verifyFn(name string, sweep bool) (res *FnResult) {
 	for _, fv := range fn.FreeVars {
 		// pointer to the captured variable
 		ptr := s.fresh("fv_"+fv.Name(), SInt)
-		st.assume(And(Lt(TZero, ptr), Le(ptr, s.H(st, "$brk", SInt))))
+		st.assume(And(Ne(ptr, TZero), Le(ptr, s.H(st, "$brk", SInt))))
 		fr.regs[fv] = ptr
 		t := fv.Type().Underlying().(*types.Pointer).Elem()
 		if isStructLike(t) {
@@ -665,7 +675,11 @@ func (P *Prog) verifyFn(name string, sweep bool) (res *FnResult) {
 		s.rgEntry(st)
 	}
 	fr.k = func(st *State, results []Value) { s.atReturn(st, results) }
+	s.mergeOn = os.Getenv("GOVC_NOMERGE") == ""
+	s.pending = map[*ssa.BasicBlock][]parked{}
+	s.computeRPO()
 	s.execFrom(st, fn.Blocks[0], nil)
+	s.drain()
 	// binding checks: every loop / callsite clause of the contract was used
 	if s.con != nil {
 		for _, ls := range s.con.Loops {
